@@ -121,6 +121,32 @@ type View struct {
 	Fetched []string // flow UUIDs fetched through this view, in order
 	// OnFetch is called at every flow fetch (a seam call: the concurrency scheduler yields here)
 	OnFetch func()
+	// own, when set, is this view's private parse of the non-flow assets (a host that shares
+	// nothing between asset loads); otherwise all views of a version read one parsed document
+	own *static.StaticSource
+}
+
+func (v *View) base() *static.StaticSource {
+	if v.own != nil {
+		return v.own
+	}
+	return v.v().base
+}
+
+// NewSACold builds session assets that share no parsed object with any other: the non-flow
+// assets are parsed again from the stored document.
+func (s *Store) NewSACold(env envs.Environment, ver int) (*SA, error) {
+	v := s.View(ver)
+	own, err := static.NewSource(s.versions[ver].docRaw)
+	if err != nil {
+		return nil, err
+	}
+	v.own = own
+	sa, err := engine.NewSessionAssets(env, v, nil)
+	if err != nil {
+		return nil, err
+	}
+	return &SA{SessionAssets: sa, View: v, Ver: ver, Env: env}, nil
 }
 
 func (s *Store) View(ver int) *View { return &View{store: s, ver: ver} }
@@ -132,20 +158,20 @@ func (v *View) v() *version {
 	return v.store.versions[v.ver]
 }
 
-func (v *View) Channels() ([]assets.Channel, error)       { return v.v().base.Channels() }
-func (v *View) Classifiers() ([]assets.Classifier, error) { return v.v().base.Classifiers() }
-func (v *View) Fields() ([]assets.Field, error)           { return v.v().base.Fields() }
-func (v *View) Globals() ([]assets.Global, error)         { return v.v().base.Globals() }
-func (v *View) Groups() ([]assets.Group, error)           { return v.v().base.Groups() }
-func (v *View) Labels() ([]assets.Label, error)           { return v.v().base.Labels() }
+func (v *View) Channels() ([]assets.Channel, error)       { return v.base().Channels() }
+func (v *View) Classifiers() ([]assets.Classifier, error) { return v.base().Classifiers() }
+func (v *View) Fields() ([]assets.Field, error)           { return v.base().Fields() }
+func (v *View) Globals() ([]assets.Global, error)         { return v.base().Globals() }
+func (v *View) Groups() ([]assets.Group, error)           { return v.base().Groups() }
+func (v *View) Labels() ([]assets.Label, error)           { return v.base().Labels() }
 func (v *View) Locations() ([]assets.LocationHierarchy, error) {
-	return v.v().base.Locations()
+	return v.base().Locations()
 }
-func (v *View) OptIns() ([]assets.OptIn, error)       { return v.v().base.OptIns() }
-func (v *View) Resthooks() ([]assets.Resthook, error) { return v.v().base.Resthooks() }
-func (v *View) Templates() ([]assets.Template, error) { return v.v().base.Templates() }
-func (v *View) Topics() ([]assets.Topic, error)       { return v.v().base.Topics() }
-func (v *View) Users() ([]assets.User, error)         { return v.v().base.Users() }
+func (v *View) OptIns() ([]assets.OptIn, error)       { return v.base().OptIns() }
+func (v *View) Resthooks() ([]assets.Resthook, error) { return v.base().Resthooks() }
+func (v *View) Templates() ([]assets.Template, error) { return v.base().Templates() }
+func (v *View) Topics() ([]assets.Topic, error)       { return v.base().Topics() }
+func (v *View) Users() ([]assets.User, error)         { return v.base().Users() }
 
 var errTransient = errors.New("asset store temporarily unavailable")
 
@@ -209,7 +235,7 @@ func (s *Store) NewSADetached(env envs.Environment, v *version, ver int) (*SA, e
 	if err != nil {
 		return nil, err
 	}
-	return &SA{SessionAssets: sa, View: view, Ver: ver}, nil
+	return &SA{SessionAssets: sa, View: view, Ver: ver, Env: env}, nil
 }
 
 // SA is a SessionAssets together with the view it reads.
@@ -217,6 +243,7 @@ type SA struct {
 	flows.SessionAssets
 	View *View
 	Ver  int
+	Env  envs.Environment // the environment the assets were loaded under
 }
 
 // NewSA builds fresh session assets (cold flow cache) over a store version.
@@ -226,5 +253,5 @@ func (s *Store) NewSA(env envs.Environment, ver int) (*SA, error) {
 	if err != nil {
 		return nil, err
 	}
-	return &SA{SessionAssets: sa, View: v, Ver: ver}, nil
+	return &SA{SessionAssets: sa, View: v, Ver: ver, Env: env}, nil
 }
